@@ -16,3 +16,6 @@ void *calloc(size_t a,size_t b){ if(!rc){ static int in; if(in){ void*p=boot+boo
 void *realloc(void*o,size_t n){ if(!rr) rr=dlsym(RTLD_NEXT,"realloc"); long old = o && !((char*)o>=boot&&(char*)o<boot+sizeof boot) ? malloc_usable_size(o):0; void*p=rr(o,n); if(p) upd((long)malloc_usable_size(p)-old); return p; }
 void free(void*p){ if(!p) return; if((char*)p>=boot&&(char*)p<boot+sizeof boot) return; if(!rf) rf=dlsym(RTLD_NEXT,"free"); upd(-(long)malloc_usable_size(p)); rf(p); }
 __attribute__((destructor)) static void fin(void){ const char*f=getenv("MCOUNT_FD"); if(f){ char b[64]; int l=snprintf(b,sizeof b,"%ld\n",(long)peak); if(write(atoi(f),b,l)<0){} } }
+// MCOUNT_NO_PHYSMEM=1: the amount of RAM cannot be determined (sysconf(_SC_PHYS_PAGES) fails), as on an unusual or sandboxed system
+#include <errno.h>
+long sysconf(int name){ static long (*rs)(int); if(!rs) rs=dlsym(RTLD_NEXT,"sysconf"); if(name==_SC_PHYS_PAGES && getenv("MCOUNT_NO_PHYSMEM")){ errno=EINVAL; return -1; } return rs(name); }
